@@ -21,6 +21,10 @@ else:
 def unmarshal(events: list[MarshalEvent]):
     """Generator. Take iterable which yields MarshalEvent. Yield strings."""
     for event in iter(events):
+        if not isinstance(event, MarshalEvent):
+            # info events (e.g. warnings) have neither type nor path
+            yield f"{Fore.RED}{event}{Style.RESET_ALL}"
+            continue
         type_name = f"{Fore.BLUE}{get_type_name(event.type)}{Style.RESET_ALL}"
         name = f"{Fore.LIGHTGREEN_EX}{event.path}{Style.RESET_ALL}"
         value = f"{Fore.YELLOW} = {'...' if event.value is ... else event.value}{Style.RESET_ALL}"
